@@ -38,6 +38,11 @@ func checkC05(w *World, r *Report) {
 	r.Rule("R05.5", "compile side cannot panic: in the functions reachable from the machine constructors (generated parser excluded) every index/slice expression, unchecked type assertion and explicit panic is discharged by a recognised guard pattern or a reviewed entry", 10)
 	r.guard("R05.5", func() { c05CompilePanics(w, r) })
 
+	r.Rule("R05.8", "no error is forgotten on the XPath side: in the xpath packages every error result bound to a variable is examined", 1)
+	r.guard("R05.8", func() {
+		errRule(w, r, "R05.8", []string{"xpath", "xpath/xutils", "xpath/grammars/expr", "xpath/grammars/leafref", "xpath/grammars/path_eval"}, nil)
+	})
+
 	r.Rule("R05.6", "the compile error quotes and locates: CreateProgram's message is built with constant format strings from the expr parameter and from a split of expr", 3)
 	r.guard("R05.6", func() { c05Message(w, r) })
 
